@@ -4,7 +4,7 @@ import os
 from harness.props import sysrun
 from harness.sched import monitors as M, library
 
-PROP_FILE = ['C06', 'C06Legacy']
+PROP_FILE = ['C06', 'C06Legacy', 'C06Temp', 'C19']
 
 
 def expect_paths(run):
@@ -44,7 +44,17 @@ def run(ctx):
     if ctx.broken is None:
         from harness.props import legacy
         legacy.check_c06(ctx)
+    # the temporary file's name (the scheduled runs use a fixed, readable naming scheme, so the
+    # real OSUtils.get_temp_filename is tied to its own model here)
+    from harness.props import c06temp, c19
+    c06temp.check(ctx)
+    # the process-pool downloader: allocate temp, finalize by rename or remove (C19's machinery)
+    if len(ctx.violations) < 5:
+        c19.sub_check(ctx, 'faults')
 
 
 def replay(ctx, data):
-    return sysrun.replay_spec(ctx, data, mons(), sampler=SAMPLER)
+    if data.get('component') == 'temp-name':
+        from harness.props import c06temp
+        return c06temp.replay(ctx, data)
+    return sysrun.replay_any(ctx, data, mons(), sampler=SAMPLER)
